@@ -87,6 +87,16 @@ func (h *Sources) Undo() {
 		return
 	}
 
+	// When we start undoing, the current line might not have been saved yet
+	// (inserted text is not saved for each character): keep it as the most
+	// recent state, or redo could never bring it back.
+	if line.pos == 0 && line.items[len(line.items)-1].line != string(*h.line) {
+		line.items = append(line.items, undoItem{
+			line: string(*h.line),
+			pos:  h.cursor.Pos(),
+		})
+	}
+
 	var undo undoItem
 
 	// When undoing, we loop through preceding undo items
